@@ -198,6 +198,12 @@ func (o *orC05) onZK(e *ZKEvent) {
 					}
 				}
 			}
+			// one failing status query voids the whole probe of that host (getNodeState)
+			for _, x := range it.sql {
+				if x.Dst == h && x.Src == it.inc && x.Seq <= e.Seq && !x.Mutating && !x.toldOK() {
+					st = ""
+				}
+			}
 			switch st {
 			case "running":
 				nRun++
